@@ -1,6 +1,215 @@
-/- C05 - property theorems (stub: not built yet) -/
+/-
+C05 - Revocation checking fails closed over the whole certificate chain.
+Property theorems only; the model is in `Model/C05.lean`.
+-/
 import NotationModel.Model.C05
+set_option linter.unusedSimpArgs false
+set_option linter.unusedVariables false
 
 namespace NotationModel.C05
+
+/-! ### the backwards loop -/
+
+/-- what the accumulators hold after the loop has walked `rs` (whose head has index `i`) -/
+structure ScanSpec (rs : List R) (i : Nat) (a : Acc) : Prop where
+  numOK : a.numOK = rs.countP R.good
+  revokedFound : a.revokedFound = rs.any (· == .revoked)
+  revokedIdx : rs.any (· == .revoked) = true → ∃ n, a.revokedIdx = some (i + n) ∧ rs[n]? = some .revoked
+  problematic : rs.all R.good = false → ∃ n r, a.problematic = some (i + n) ∧ rs[n]? = some r ∧
+      r.good = false ∧ a.final = r.toFinal
+
+theorem scan_spec : ∀ (rs : List R) (i : Nat), ScanSpec rs i (scan rs i) := by
+  intro rs
+  induction rs with
+  | nil => intro i; constructor <;> simp [scan]
+  | cons r rest ih =>
+    intro i
+    have h := ih (i + 1)
+    simp only [scan, loopStep]
+    by_cases hg : r.good = true
+    · have hr : (r == R.revoked) = false := by cases r <;> simp_all [R.good]
+      simp only [hg, if_true]
+      constructor
+      · simp [h.numOK, List.countP_cons, hg]
+      · simp [h.revokedFound, hr]
+      · intro hany
+        simp only [List.any_cons, hr, Bool.false_or] at hany
+        obtain ⟨n, h1, h2⟩ := h.revokedIdx hany
+        exact ⟨n + 1, by simp [h1]; omega, by simpa using h2⟩
+      · intro hall
+        simp only [List.all_cons, hg, Bool.true_and] at hall
+        obtain ⟨n, r', h1, h2, h3, h4⟩ := h.problematic hall
+        exact ⟨n + 1, r', by simp [h1]; omega, by simpa using h2, h3, h4⟩
+    · have hg' : r.good = false := by simpa using hg
+      simp only [hg', Bool.false_eq_true, if_false]
+      constructor
+      · simp [h.numOK, List.countP_cons, hg']
+      · simp [h.revokedFound, Bool.or_comm]
+      · intro hany
+        by_cases hr : r = .revoked
+        · exact ⟨0, by simp [hr], by simp [hr]⟩
+        · have hr' : (r == R.revoked) = false := by simpa using hr
+          simp only [List.any_cons, hr', Bool.false_or] at hany
+          obtain ⟨n, h1, h2⟩ := h.revokedIdx hany
+          exact ⟨n + 1, by simp [hr', h1]; omega, by simpa using h2⟩
+      · intro _
+        exact ⟨0, r, by simp, by simp, hg', by simp⟩
+
+theorem countP_eq_length_iff (rs : List R) : (rs.countP R.good = rs.length) ↔ rs.all R.good = true := by
+  rw [List.countP_eq_length]
+  simp
+
+/-- a result that is neither good nor revoked is `unknown` -/
+theorem not_good_not_revoked (r : R) (hg : r.good = false) (hr : r ≠ .revoked) : r.toFinal = .unknown := by
+  cases r <;> simp_all [R.good, R.toFinal]
+
+/-! ### property theorems about `revocationFinalResult` (lists of any length) -/
+
+/-- **final_ok_iff**: the final result is OK exactly when every certificate is OK or non-revokable -/
+theorem final_ok_iff (rs : List R) : (revocationFinal rs).1 = .ok ↔ rs.all R.good = true := by
+  have h := scan_spec rs 0
+  unfold revocationFinal
+  by_cases hall : rs.all R.good = true
+  · have : (scan rs 0).numOK = rs.length := by rw [h.numOK]; exact (countP_eq_length_iff rs).2 hall
+    simp [this, hall]
+  · have hne : (scan rs 0).numOK ≠ rs.length := by
+      rw [h.numOK]; intro e; exact hall ((countP_eq_length_iff rs).1 e)
+    have hall' : rs.all R.good = false := by simpa using hall
+    simp only [beq_iff_eq, hne, if_false, hall]
+    by_cases hrev : (scan rs 0).revokedFound = true
+    · simp [hrev]
+    · simp only [hrev, Bool.false_eq_true, if_false]
+      obtain ⟨n, r, _, _, h3, h4⟩ := h.problematic hall'
+      rw [h4]
+      cases r <;> simp_all [R.good, R.toFinal]
+
+/-- **final_revoked**: if any certificate is reported revoked, the final result is revoked and the
+index reported points at a revoked certificate - whatever the others report -/
+theorem final_revoked (rs : List R) (hany : rs.any (· == .revoked) = true) :
+    (revocationFinal rs).1 = .revoked ∧ ∃ n, (revocationFinal rs).2 = some n ∧ rs[n]? = some .revoked := by
+  have h := scan_spec rs 0
+  have hall : rs.all R.good = false := by
+    simp only [List.any_eq_true, beq_iff_eq] at hany
+    obtain ⟨x, hx, rfl⟩ := hany
+    apply Bool.eq_false_iff.2
+    intro hc
+    have := List.all_eq_true.1 hc _ hx
+    simp [R.good] at this
+  have hne : (scan rs 0).numOK ≠ rs.length := by
+    rw [h.numOK]; intro e
+    have := (countP_eq_length_iff rs).1 e
+    rw [hall] at this; exact Bool.noConfusion this
+  obtain ⟨n, h1, h2⟩ := h.revokedIdx hany
+  unfold revocationFinal
+  simp only [h.revokedFound, hany, if_true, beq_iff_eq, hne, if_false]
+  exact ⟨trivial, n, by simpa using h1, h2⟩
+
+/-- **final_unknown**: otherwise (not all good, none revoked) the final result is unknown and the
+index reported points at a certificate that is not good -/
+theorem final_unknown (rs : List R) (hall : rs.all R.good = false) (hany : rs.any (· == .revoked) = false) :
+    (revocationFinal rs).1 = .unknown ∧ ∃ n r, (revocationFinal rs).2 = some n ∧ rs[n]? = some r ∧ r.good = false := by
+  have h := scan_spec rs 0
+  have hne : (scan rs 0).numOK ≠ rs.length := by
+    rw [h.numOK]; intro e
+    have := (countP_eq_length_iff rs).1 e
+    rw [hall] at this; exact Bool.noConfusion this
+  obtain ⟨n, r, h1, h2, h3, h4⟩ := h.problematic hall
+  have hr : r ≠ .revoked := by
+    intro e; subst e
+    have : rs.any (· == R.revoked) = true := by
+      apply List.any_eq_true.2
+      exact ⟨R.revoked, List.mem_of_getElem? h2, by simp⟩
+    rw [hany] at this; exact Bool.noConfusion this
+  unfold revocationFinal
+  simp only [h.revokedFound, hany, Bool.false_eq_true, if_false, beq_iff_eq, hne]
+  exact ⟨by rw [h4]; exact not_good_not_revoked r h3 hr, n, r, by simpa using h1, h2, h3⟩
+
+/-! ### the whole property -/
+
+/-- **C05**: every clause of `Holds` is true of the model's behaviour, for result vectors and
+chains of any length -/
+theorem model_holds (i : Input) : Holds i (run i) = true := by
+  unfold Holds clauses run
+  cases ha : i.action
+  case skip => simp [Clauses.holds]
+  all_goals
+    cases hv : i.validatorError
+    case true => simp [Clauses.holds] <;> decide
+    all_goals
+      simp only [Clauses.holds]
+      by_cases hall : i.vec.all R.good = true
+      · have hok := (final_ok_iff i.vec).2 hall
+        have hnr : i.vec.any (· == R.revoked) = false := by
+          apply Bool.eq_false_iff.2
+          intro hc
+          obtain ⟨x, hx, hxe⟩ := List.any_eq_true.1 hc
+          have := List.all_eq_true.1 hall _ hx
+          simp only [beq_iff_eq] at hxe
+          subst hxe
+          simp [R.good] at this
+        rcases hrf : revocationFinal i.vec with ⟨f, n⟩
+        rw [hrf] at hok
+        simp only at hok
+        subst hok
+        simp only [List.all_eq_true] at hall
+        simp only [List.any_eq_false, beq_iff_eq] at hnr
+        simp
+        try grind
+      · have hall' : i.vec.all R.good = false := by simpa using hall
+        by_cases hany : i.vec.any (· == R.revoked) = true
+        · obtain ⟨h1, n, h2, h3⟩ := final_revoked i.vec hany
+          rcases hrf : revocationFinal i.vec with ⟨f, m⟩
+          rw [hrf] at h1 h2
+          simp only at h1 h2
+          subst h1 h2
+          simp only [List.all_eq_false] at hall'
+          simp only [List.any_eq_true, beq_iff_eq] at hany
+          simp [h3]
+          try grind
+        · have hany' : i.vec.any (· == R.revoked) = false := Bool.eq_false_iff.2 hany
+          obtain ⟨h1, n, r, h2, h3, h4⟩ := final_unknown i.vec hall' hany'
+          rcases hrf : revocationFinal i.vec with ⟨f, m⟩
+          rw [hrf] at h1 h2
+          simp only at h1 h2
+          subst h1 h2
+          simp only [List.all_eq_false] at hall'
+          simp only [List.any_eq_false, beq_iff_eq] at hany'
+          simp [h3, h4]
+          try grind
+
+/-! ### readable consequences -/
+
+/-- the validator is consulted exactly once with the complete chain, through the interface the
+caller supplied, and gets the signing time only for signing-authority signatures -/
+theorem validator_args (i : Input) (h : i.action ≠ .skip) :
+    (run i).calls = 1 ∧ (run i).chainLen = some i.vec.length ∧ (run i).usedIface = some i.iface ∧
+    (run i).signingTime = some (i.scheme == .signingAuthority) := by
+  unfold run
+  have : (i.action == Action.skip) = false := by simpa using h
+  simp only [this, Bool.false_eq_true, if_false]
+  cases i.validatorError <;> simp
+  rcases revocationFinal i.vec with ⟨f, n⟩
+  cases f <;> simp
+
+theorem validator_error_fails (i : Input) (h : i.action ≠ .skip) (he : i.validatorError = true) :
+    (run i).outcome = .inconclusive ∧ ((run i).accepted = true ↔ i.action = .log) := by
+  unfold run
+  have : (i.action == Action.skip) = false := by simpa using h
+  simp only [this, Bool.false_eq_true, if_false, he, if_true]
+  cases ha : i.action <;> simp_all
+
+theorem skipped_not_performed (i : Input) (h : i.action = .skip) :
+    (run i).calls = 0 ∧ (run i).outcome = .notPerformed := by
+  simp [run, h]
+
+/-- non-vacuity: a revoked intermediate behind an unknown leaf is reported as revoked, naming index 1 -/
+example : revocationFinal [.unknown, .revoked, .ok] = (.revoked, some 1) := by decide
+example : revocationFinal [.nonRevokable, .ok] = (.ok, none) := by decide
+example : revocationFinal [.ok, .unknown, .unknown] = (.unknown, some 1) := by decide
+
+example : Holds { vec := [.unknown, .revoked], scheme := .x509, iface := .client, action := .enforce,
+                  validatorError := false, methods := [], serverErrors := [] }
+    { outcome := .unknown, named := some 0, accepted := false, calls := 1, chainLen := some 2,
+      signingTime := some false, usedIface := some .client } = false := by decide
 
 end NotationModel.C05
